@@ -733,6 +733,9 @@ class Provenance:
         ds = list(self.rd.defs(expr))
         if len(ds) == 1 and ds[0].kind in ("assign", "walrus") and ds[0].value is not None:
             return self.resolve_alias(ds[0].value, depth + 1)
+        if len(ds) == 1 and ds[0].kind == "unpack" and isinstance(ds[0].value, (ast.Tuple, ast.List)) and ds[0].index and len(ds[0].index) == 1 \
+                and ds[0].index[0] < len(ds[0].value.elts):
+            return self.resolve_alias(ds[0].value.elts[ds[0].index[0]], depth + 1)
         return expr
 
 
